@@ -106,6 +106,10 @@ noncomputable instance instFloatSpecReal : FloatSpec ℝ where
   cos_zero := fun {a} _ h => by show Real.cos a = 1; rw [show a = 0 from h]; exact Real.cos_zero
   sin_zero := fun {a} _ h => by show Real.sin a = 0; rw [show a = 0 from h]; exact Real.sin_zero
   atan2_spec := fun {y x} _ _ => ⟨trivial, Complex.abs_arg_le_pi _, fun _ => by simp [FloatLike.atan2]⟩
+  atan2_neg_axis := fun {y x} _ _ hy hx => by
+    show Real.pi - 0 ≤ |Complex.arg ⟨x, y⟩|
+    have : (⟨x, y⟩ : ℂ) = ((x : ℝ) : ℂ) := by apply Complex.ext <;> simp [show y = 0 from hy]
+    rw [this, Complex.arg_ofReal_of_neg (show x < 0 from hx), abs_of_pos Real.pi_pos]; linarith
   acos_spec := fun {a} _ _ => ⟨trivial, Real.arccos_nonneg a, Real.arccos_le_pi a⟩
   asin_spec := fun {a} _ _ => ⟨trivial, by
     show |Real.arcsin a| ≤ Real.pi / 2
